@@ -263,7 +263,7 @@ func TestProp_C07_Schedules(t *testing.T) {
 						// reps > 0: the user sends further texts while the exchange is under way. Judged only for Send under
 						// required encryption, where every such Send is itself one of the starts the statement lists (the
 						// conversation is still plaintext and answers with another query); see DESIGN.md §10 for tagged sends
-						if reps > 0 && (trig != 3 || who == 2 || pre == 2 || !sim.Thorough() && (reps > 1 || pre > 1)) {
+						if reps > 0 && (trig != 3 || who == 2 || pre == 2 || !sim.Thorough() && (reps > 1 || pre > 1) || reps > 1 && pre != 0) {
 							continue
 						}
 						idx++
